@@ -70,7 +70,7 @@ def check(ctx):
     ctx.rule("R13.4", "Polyak step: dA = K - A_prev, v' = (1-beta) v + alpha dA, A' = A_prev + v', "
                       "error = max(|dA_i| / max(|A'_i|, 1e-20))", 3)
     ctx.rule("R13.5", "accepted steps are converged steps: loop exits are {error < tolerance, raise on iteration bound, "
-                      "not include_screening}; initial error is +inf", 4)
+                      "not include_screening}; no exit by exhaustion; initial error is +inf", 5)
     ctx.rule("R13.6", "screening off: induced potential is passed through unchanged and starts as zeros", 2)
     fnum = repo.func(SCREEN, "get_A_induced_numba")
     kernel_obligations(ctx, fnum, "R13.1", "numba")
@@ -169,11 +169,20 @@ def loop_discipline(ctx):
     fu = repo.func(SOLVER, "TDGLSolver.update")
     fn = fu.node
     pm = parent_map(fn)
-    loops = [n for n in own_nodes(fn) if isinstance(n, ast.For) and "count" in norm(n.iter)]
+    loops = [n for n in own_nodes(fn) if isinstance(n, (ast.For, ast.While)) and any(
+        isinstance(c, ast.Call) and norm(c.func) == "self.get_induced_vector_potential" for c in ast.walk(n))]
     if len(loops) != 1:
-        raise AnalysisError("TDGLSolver.update no longer has exactly one itertools.count() loop")
+        raise AnalysisError("TDGLSolver.update no longer has exactly one loop around get_induced_vector_potential")
     lp = loops[0]
     exits = [n for n in ast.walk(lp) if isinstance(n, (ast.Break, ast.Return, ast.Raise))]
+    infinite = (isinstance(lp, ast.For) and norm(lp.iter) in ("itertools.count()", "count()")) or \
+               (isinstance(lp, ast.While) and isinstance(lp.test, ast.Constant) and lp.test.value is True)
+    ctx.ob("R13.5", "the screening loop cannot run out of iterations silently (unbounded iterator; the bound is enforced by raising)",
+           infinite, detail={"loop": norm(lp).split("\n")[0]}, where=fu.fq, construct="screening loop iterator", loc=loc(fu, lp),
+           message=f"`{norm(lp).splitlines()[0]}` ends by exhaustion: after the last iteration control falls out of the loop without "
+                   f"the convergence test having succeeded",
+           consequence="a step whose screening iteration did not converge is accepted and recorded instead of raising",
+           witness={"input": "include_screening=True with max_iterations_per_step smaller than the iterations needed"})
     err_names = set()
     for n in ast.walk(lp):
         if isinstance(n, ast.Assign) and isinstance(n.value, ast.Call) and "get_induced_vector_potential" in norm(n.value.func):
@@ -192,7 +201,7 @@ def loop_discipline(ctx):
                 and gs[0][0].test.left.id in err_names and "screening_tolerance" in norm(gs[0][0].test.comparators[0]):
             kinds["converged"] += 1
         elif isinstance(e, ast.Raise) and len(gs) == 1 and gs[0][1] == "true" and "max_iterations_per_step" in txt[0] \
-                and isinstance(lp.target, ast.Name) and lp.target.id in txt[0] and ">" in txt[0]:
+                and isinstance(getattr(lp, 'target', None), ast.Name) and lp.target.id in txt[0] and ">" in txt[0]:
             kinds["bound"] += 1
         elif isinstance(e, ast.Break) and len(gs) == 1 and gs[0][1] == "false" and norm(gs[0][0].test).endswith("include_screening"):
             kinds["off"] += 1
